@@ -4,11 +4,15 @@ Finding F-01 (repaired by fixes/F-01.patch): the PINNED move-assignment rule `!r
 (`assignMoveAtPinned` in AdeptModel/Storage.lean) breaks the ownership statement of C07 on the witness
 `Vector t(3); t = Vector(ext, dimensions(3)); ext[0] = -1;` — machine-checked by evaluation.  With the repaired rule
 (`assignMoveAt`) the same history keeps the target in its own Storage (example in Props/C07.lean).
+
+Second part: why the view constructor must test the extents BEFORE `storage_->add_link()`.  `viewCtorLate` keeps the
+state at the `throw` of a constructor that links first: a rejected view then leaves a link nobody holds, the
+invariant is broken and the parent's Storage is never released.
 -/
 namespace Adept.Storage
 
 /-- `int ext[3] = {10,11,12}; Vector t(3) = {1,2,3};` and the temporary `Vector(ext, dimensions(3))` at position 1 -/
-def f01Before : St := run init [.xnew 3 10, .new 3 1, .newExternal 0 0 3]
+def f01Before : St := run init [.xnew 3 10, .new .vec 3 0 1, .newExternal 0 0 3]
 
 def poolOf : Except Err St → List Obj
   | .ok s => s.pool
@@ -22,17 +26,102 @@ def readOf (r : Except Err St) (o : Obj) : List Int :=
 /-- pinned rule: the swap leaves the target `t` (position 0) a storage-less view of the external block … -/
 theorem pinned_move_aliases_external :
     poolOf (assignMoveAtPinned f01Before 0 1) =
-      [{ region := .ext 0, off := 0, storage := none, len := 3, stride := 1 }, ownerOf 0 3] := by decide
+      [{ kind := .vec, region := .ext 0, off := 0, storage := none, len := 3, stride := 1 }, ownerOf .vec 0 3 0] := by decide
 
 /-- … so `ext[0] = -1` shows through `t`: it reads -1, 11, 12 -/
 theorem pinned_move_not_independent :
     readOf ((assignMoveAtPinned f01Before 0 1).bind (fun s => xwriteAt s 0 0 (-1)))
-      { region := .ext 0, off := 0, storage := none, len := 3, stride := 1 } = [-1, 11, 12] := by decide
+      { kind := .vec, region := .ext 0, off := 0, storage := none, len := 3, stride := 1 } = [-1, 11, 12] := by decide
 
 /-- the repaired rule copies instead: the target keeps its Storage and the values 10, 11, 12 -/
 theorem repaired_move_copies :
     poolOf (assignMoveAt f01Before 0 1) =
-      [ownerOf 0 3, { region := .ext 0, off := 0, storage := none, len := 3, stride := 1 }] ∧
-    readOf ((assignMoveAt f01Before 0 1).bind (fun s => xwriteAt s 0 0 (-1))) (ownerOf 0 3) = [10, 11, 12] := by decide
+      [ownerOf .vec 0 3 0, { kind := .vec, region := .ext 0, off := 0, storage := none, len := 3, stride := 1 }] ∧
+    readOf ((assignMoveAt f01Before 0 1).bind (fun s => xwriteAt s 0 0 (-1))) (ownerOf .vec 0 3 0) = [10, 11, 12] := by decide
+
+/-! ### a view constructor that links before it validates -/
+
+/-- the state at the `throw` of a view constructor whose extent test comes AFTER `storage_->add_link()`
+    (the half-built object is never destroyed, so the link stays) -/
+def viewCtorLateThrowState (s : St) (b : Obj) : Except Err St :=
+  match b.storage with
+  | none => .ok s
+  | some σ => addLink s σ
+
+/-- `Vector v(5); try { v(range(4,1)); } catch (invalid_dimension&) {}` with the late test: one object, two links -/
+def lateState : St :=
+  match viewCtorLateThrowState (run init [.new .vec 5 0 1]) (ownerOf .vec 0 5 0) with
+  | .ok s => s
+  | .error _ => init
+
+theorem late_check_keeps_a_link : lateState.heap.map (·.nLinks) = [2] ∧ lateState.pool.length = 1 := by decide
+
+/-- that state violates the invariant (two links, one referrer) … -/
+theorem late_check_breaks_invariant : ¬ Inv lateState := by
+  intro I
+  have h := (I.counts 0 { nLinks := 2, freed := false, size := 5, active := false } (by decide) rfl).1
+  revert h
+  decide
+
+/-- … and the Storage outlives its last array: a leak -/
+theorem late_check_leaks :
+    (run lateState [.destroy 0]).pool = [] ∧ nStorageObjects (run lateState [.destroy 0]) = 1 := by decide
+
+/-- with the test first (the transcribed code) the same rejected view changes nothing and the data are released -/
+theorem early_check_releases :
+    (run init [.new .vec 5 0 1, .view 0 (.slice 4 1 1), .destroy 0]).pool = [] ∧
+    nStorageObjects (run init [.new .vec 5 0 1, .view 0 (.slice 4 1 1), .destroy 0]) = 0 := by decide
+
+/-! ### finding F-74 (repaired by commit f93fa0f): what the PINNED resize left after a failed allocation -/
+
+/-- pinned code: `storage_ = 0` (the link has been given back), `data_` STILL the old pointer, extents and strides
+    already the new ones -/
+def staleObj (a : Obj) (m0 m1 : Nat) : Obj :=
+  { ownerOf a.kind 0 m0 m1 with region := a.region, off := a.off, storage := none }
+
+/-- `Vector v(3); try { v.resize(5); } catch (std::bad_alloc&) {}` on the pinned tree -/
+def pinnedFailedResize : St :=
+  match releaseAt (run init [.new .vec 3 0 1]) 0 with
+  | .ok s1 => setObj s1 0 (staleObj (ownerOf .vec 0 3 0) 5 0)
+  | .error _ => init
+
+/-- the live array has five elements, holds nothing, and its data pointer looks into the Storage that has just been
+    deleted: every read is a use of released memory -/
+theorem pinned_failed_resize_dangles :
+    pinnedFailedResize.pool = [{ kind := .vec, region := .sto 0, off := 0, storage := none, len := 5, stride := 1 }] ∧
+    pinnedFailedResize.heap.map (·.freed) = [true] ∧
+    (match readView pinnedFailedResize { kind := .vec, region := .sto 0, off := 0, storage := none, len := 5, stride := 1 } with
+     | .ok _ => false | .error e => e == .badAccess) = true := by decide
+
+/-- the repaired code leaves the array empty -/
+theorem repaired_failed_resize_is_empty :
+    (run init [.new .vec 3 0 1, .failNext 1, .resize 0 false 5 0 0]).pool = [blank .vec] ∧
+    (run init [.new .vec 3 0 1, .failNext 1, .resize 0 false 5 0 0]).heap.map (·.freed) = [true] := by decide
+
+/-! ### a resize that keeps `storage_` after `remove_link()` (seeded regression C14_4) under an allocation fault -/
+
+/-- `SymmMatrix s(3), t(s);` then `t.resize(2)` whose allocation fails, with `storage_ = 0` forgotten after
+    `remove_link()`: the link has been given back and the handler has emptied `t`, but `t` still names the Storage -/
+def keptPointerState : St :=
+  match releaseAt (run init [.new .symm 3 0 1, .copyCtor 0]) 1 with
+  | .ok s1 => setObj s1 1 { blank .symm with storage := some 0 }
+  | .error _ => init
+
+theorem kept_pointer_breaks_invariant : ¬ Inv keptPointerState := by
+  intro I
+  have h := (I.counts 0 { nLinks := 1, freed := false, size := 9, active := false } (by decide) rfl).1
+  revert h
+  decide
+
+/-- … and destroying `t` removes a link it does not hold: the Storage is deleted under the live matrix `s` -/
+theorem kept_pointer_frees_shared_data :
+    (run keptPointerState [.destroy 1]).heap.map (·.freed) = [true] ∧
+    (run keptPointerState [.destroy 1]).pool.map (·.storage) = [some 0] := by decide
+
+/-- the transcribed code (pointer reset before the allocation): the same fault leaves `s` the only holder -/
+theorem reset_pointer_keeps_shared_data :
+    (run init [.new .symm 3 0 1, .copyCtor 0, .failNext 1, .resize 1 true 2 2 0, .destroy 1]).heap.map (·.nLinks) = [1] ∧
+    (run init [.new .symm 3 0 1, .copyCtor 0, .failNext 1, .resize 1 true 2 2 0, .destroy 1]).heap.map (·.freed) = [false] := by
+  decide
 
 end Adept.Storage
